@@ -67,6 +67,10 @@ class Oracle:
         self.owner_of_path = {}
         self.max_bytes = None
         self.persisted_max = None
+        # values the 'tolerate missing files' setting may have: the constructor argument, or what an earlier
+        # process persisted (either may win on reopen); exactly one value right after the caller set it
+        self.allow_ctor = world.knobs.get("allow_missing", True) if world.knobs.get("api", "object") == "object" else True
+        self.allow_opts = {self.allow_ctor}
         self.volatile = set()  # keys a zombie worker may still be writing
         self.tainted = False  # some fault/crash happened earlier in this run (C19)
         self.pending_retry = set()  # keys whose last fetch failed (19d)
@@ -246,6 +250,7 @@ class Oracle:
                                        "states %.0f" % (obs.max_bytes, cfg["size_gb"] * 1e9), obs)
         self.max_bytes = obs.max_bytes
         self.persisted_max = obs.max_bytes
+        self.allow_opts = set(self.allow_opts) | {self.allow_ctor}
         reg = {i for i, b in enumerate(obs.in_cache) if b}
         # start-up eviction obeys the LRU relation with an empty current request
         v = self._check_evictions(obs, current=set(), strict=not self.c19 or not self.tainted)
@@ -313,7 +318,11 @@ class Oracle:
         reg = self.registered if self.registered is not None else set()
         pre_files = cache_files(obs.pre, self.cd)
         post_files = cache_files(obs.post, self.cd)
-        allow_missing = w.knobs.get("allow_missing", True) if w.knobs.get("api", "object") == "object" else True
+        if len(self.allow_opts) == 1:
+            allow_missing = next(iter(self.allow_opts))
+        else:
+            # set by an earlier process and reopened with another constructor argument: either may be in force
+            allow_missing = obs.cfg_allow_pre if obs.cfg_allow_pre is not None else self.allow_ctor
         # --- classify the request ------------------------------------------------
         rejected = set()
         for (_op, key, verdict) in obs.validator_calls:
@@ -769,6 +778,7 @@ class Oracle:
             # module-level purge re-creates the cache object, which re-reads the persisted configuration
             self.max_bytes = obs.max_bytes
             self.persisted_max = obs.max_bytes
+            self.allow_opts = set(self.allow_opts) | {self.allow_ctor}
         return None
 
     def _check_passive(self, obs):
@@ -776,7 +786,31 @@ class Oracle:
         if obs.crashed:
             self.registered = None
             self.tainted = True
+            if obs.kind == "SETCFG":
+                self.allow_opts = {True, False}
         elif obs.kind == "EDIT_CONFIG" and obs.result is not None:
             self.persisted_max = obs.result  # takes effect at the next open
             self.probe("config_edited")
+        elif obs.kind == "SETCFG":
+            return self._check_setcfg(obs)
+        return None
+
+    def _check_setcfg(self, obs):
+        """the caller changed a setting through the configuration object's public properties"""
+        attr = obs.op.get("attr")
+        if obs.exc is not None:
+            return self._v("19d-poison" if self.c19 else "18a", "setting config.%s raised %r" % (attr, obs.exc), obs)
+        if obs.result is None:
+            return None
+        self.probe("config_set_" + attr)
+        if attr == "allow":
+            self.allow_opts = {obs.result[1]}
+        elif attr == "grow":
+            want = obs.result[1]
+            if obs.max_bytes is not None:
+                if abs(obs.max_bytes - want) > 2:
+                    return self._v("18e" if not self.c19 else "19g", "the size limit was set to %d bytes but the size in "
+                                   "force is %s" % (want, obs.max_bytes), obs)
+                self.max_bytes = obs.max_bytes
+                self.persisted_max = obs.max_bytes
         return None
